@@ -27,6 +27,10 @@ theorem xmss_XMSS_GetSeed : Gen.Skel.xmss_XMSS_GetSeed = "e570af7da70c5b3e" := b
 theorem xmss_XMSS_GetExtendedSeed : Gen.Skel.xmss_XMSS_GetExtendedSeed = "a0c07a0b621fb815" := by decide
 theorem xmss_XMSS_GetMnemonic : Gen.Skel.xmss_XMSS_GetMnemonic = "5c47856f6253d0bf" := by decide
 theorem xmss_XMSS_GetAddress : Gen.Skel.xmss_XMSS_GetAddress = "63869eb890e5ee7c" := by decide
+theorem xmss_XMSS_GetHexSeed : Gen.Skel.xmss_XMSS_GetHexSeed = "b934050a3f2ef41e" := by decide
+theorem xmss_XMSS_GetSK : Gen.Skel.xmss_XMSS_GetSK = "dc0da7c2b2a486fe" := by decide
+theorem xmss_XMSS_GetHeight : Gen.Skel.xmss_XMSS_GetHeight = "f5887d2079b315cc" := by decide
+theorem xmss_XMSS_GetLegacyAddress : Gen.Skel.xmss_XMSS_GetLegacyAddress = "6b7d759d24874333" := by decide
 theorem xmss_xmssFastUpdate : Gen.Skel.xmss_xmssFastUpdate = "977a98fba95d6187" := by decide
 theorem xmss_xmssFastSignMessage : Gen.Skel.xmss_xmssFastSignMessage = "9fbd25ca9c57ed8c" := by decide
 theorem xmss_getSignatureSize : Gen.Skel.xmss_getSignatureSize = "6394463e108edd14" := by decide
